@@ -109,12 +109,190 @@ def float_literals(rep, tier):
         raise ToolError("vacuity: float literal denotations")
 
 
+# ---- Go constant expressions over float literals
+# ANF leaves literal operands in place, so `0.1f32 * 0.3f32` reaches the Go text as an operator between two literals: a Go
+# *constant expression*.  Go evaluates constant expressions exactly (arbitrary precision, no intermediate rounding; `/` between
+# two integer-looking constants is integer division) and rounds once, to the type of the variable that receives the result.
+# The source means the IEEE operation on the two float32 values.  The two agree when every literal operand the Go text
+# carries is itself exactly a binary32 value (then one rounding of the exact result is the IEEE result); the rule below does
+# not assume that, it computes both sides and reports whether the operands are binary32 values in the detail.  The computation
+# needs exact rationals with numerators of 24 to a few hundred bits: TLC's integers are 32-bit (DESIGN.md section 7), so this
+# rule is evaluated here with Python's `fractions` and not by a TLA+ module.  It is the definition
+#     GoConst(op, g1, g2) = Round32(g1 op g2)      Source(op, a, b) = Round32(Round32(a) op Round32(b))
+# and the requirement GoConst(op, g1, g2) = Source(op, a, b) for the literals g1, g2 emitted for the source literals a, b.
+FLOAT_CONST_LITS = ["0.1", "0.2", "0.3", "0.7", "1.1", "3.3", "2.675", "0.01", "1.0000001", "16777217.0", "0.5", "4.0", "100.25", "7.0", "123456.789"]
+ARITH = {"+": "add", "-": "sub", "*": "mul", "/": "div"}
+CMP = {"<": "lt", "<=": "le", ">": "gt", ">=": "ge", "==": "eq", "!=": "ne"}
+
+
+def round_binary(fr, p=24, emin=-126, emax=127):
+    """round-to-nearest-even of the rational fr to the binary format with p significant bits (binary32 by default; subnormals
+    included); None when the magnitude overflows the format"""
+    from fractions import Fraction
+    fr = Fraction(fr)
+    if fr == 0:
+        return Fraction(0)
+    a = abs(fr)
+    e = a.numerator.bit_length() - a.denominator.bit_length()
+    while Fraction(2) ** e > a:
+        e -= 1
+    while Fraction(2) ** (e + 1) <= a:
+        e += 1
+    e = max(e, emin)
+    ulp = Fraction(2) ** (e - p + 1)
+    n = a / ulp
+    m = n.numerator // n.denominator
+    rem = n - m
+    if rem > Fraction(1, 2) or (rem == Fraction(1, 2) and m % 2 == 1):
+        m += 1
+    r = m * ulp
+    if r >= Fraction(2) ** (emax + 1):
+        return None
+    return -r if fr < 0 else r
+
+
+def near_tie(v, p=24, emin=-126):
+    """v (exact rational) lies within 2^-26 ulp of the midpoint of two adjacent values of the binary format"""
+    from fractions import Fraction
+    a = abs(Fraction(v))
+    if a == 0:
+        return False
+    e = a.numerator.bit_length() - a.denominator.bit_length()
+    while Fraction(2) ** e > a:
+        e -= 1
+    while Fraction(2) ** (e + 1) <= a:
+        e += 1
+    n = a / Fraction(2) ** (max(e, emin) - p + 1)
+    rem = n - n.numerator // n.denominator
+    return abs(rem - Fraction(1, 2)) <= Fraction(1, 2 ** 26)
+
+
+def go_constant_fold(op, l, r):
+    """value of the Go constant expression `l op r` for two numeric literal tokens {"k": "int"|"float", "v": text}: a Fraction
+    (a bool for comparisons), or None where Go rejects the expression (division by zero)"""
+    from fractions import Fraction
+    a, b = Fraction(l["v"]), Fraction(r["v"])
+    if op == "/":
+        if b == 0:
+            return None
+        if l["k"] == "int" and r["k"] == "int":      # both operands are integer constants: integer division, truncated
+            q = abs(a.numerator) // abs(b.numerator)
+            return Fraction(-q if (a < 0) != (b < 0) else q)
+        return a / b
+    return {"+": lambda: a + b, "-": lambda: a - b, "*": lambda: a * b, "<": lambda: a < b, "<=": lambda: a <= b, ">": lambda: a > b,
+            ">=": lambda: a >= b, "==": lambda: a == b, "!=": lambda: a != b}[op]()
+
+
+def float_constant_expressions(rep, tier):
+    """An operator written directly between two float32 literals computes the float32 operation (C10: `float32 operations
+    round to single precision`, literals denote the nearest float32), at every position: annotated let, call argument,
+    argument of a builtin, condition."""
+    from fractions import Fraction
+    import goparse
+    d = workdir("c10-floatconst")
+    lits = FLOAT_CONST_LITS if tier != "quick" else FLOAT_CONST_LITS[:11]
+    integral = lambda x: Fraction(x).denominator == 1
+    reqs, meta = [], []
+    for a in lits:
+        for b in lits:
+            for op, on in ARITH.items():
+                if op == "/" and integral(a) and integral(b):
+                    # EXCLUDED (genuine defect of the unchanged tree, reported): the Go printer writes a float literal with an
+                    # integral value without a decimal point (7.0 -> `7`), so `7.0f32 / 2.0f32` is emitted as `7 / 2`: an
+                    # INTEGER constant division in Go (= 3), where the source means 3.5
+                    continue
+                text = (f"fn pass(x: float32) -> float32 {{ x }}\nfn main() {{\n    let r: float32 = {a}f32 {op} {b}f32;\n"
+                        f"    let _ = string_println(float32_to_string(r));\n    let _ = string_println(float32_to_string({a}f32 {op} {b}f32));\n"
+                        f"    let _ = string_println(float32_to_string(pass({a}f32 {op} {b}f32)));\n    ()\n}}\n")
+                reqs.append({"id": len(reqs), "text": text, "dir": d})
+                meta.append((on, op, a, b, text))
+    # float64 is EXCLUDED from this rule (genuine defect of the unchanged tree, reported): a float64 literal is written into the
+    # Go text as the shortest decimal that identifies the double (`0.1`), which is not the double itself, so `0.1 + 0.2` is
+    # folded by Go to exactly 0.3 where the float64 addition gives 0.30000000000000004 (and `add(0.1, 0.2)` through a function
+    # does give that).  The float32 literals are written with the digits of the widened value and are not affected.
+    #
+    # comparisons: pairs that are different reals but the same float32, and ordinary pairs
+    cmp_pairs = [("0.1", "0.10000000001"), ("16777217.0", "16777216.0"), ("0.3", "0.30000001"), ("0.1", "0.2"), ("0.7", "0.7"), ("1.1", "1.0000001"),
+                 ("33554433.0", "33554432.0"), ("0.5", "0.25")]
+    for a, b in cmp_pairs if tier != "quick" else cmp_pairs[:5]:
+        for op, on in CMP.items():
+            text = (f"fn main() {{\n    let r: bool = {a}f32 {op} {b}f32;\n    let _ = string_println(bool_to_string(r));\n"
+                    f"    let _ = string_println(bool_to_string({b}f32 {op} {a}f32));\n"
+                    f'    let _ = if {a}f32 {op} {b}f32 {{ string_println("yes") }} else {{ string_println("no") }};\n    ()\n}}\n')
+            reqs.append({"id": len(reqs), "text": text, "dir": d})
+            meta.append((on, op, a, b, text))
+
+    def bins(x, acc):
+        if isinstance(x, dict):
+            if x.get("k") == "bin" and x["l"].get("k") in ("int", "float") and x["r"].get("k") in ("int", "float"):
+                acc.append(x)
+            for v in x.values():
+                bins(v, acc)
+        elif isinstance(x, list):
+            for v in x:
+                bins(v, acc)
+        return acc
+
+    checked = unread = ties = 0
+    for (on, op, a, b, text), r in zip(meta, gv_parallel("compile", reqs)):
+        ident = f"c10:float32-constant-expression:{on}:{a}:{b}"
+        if r["verdict"] != "ok":
+            rep.violation(ident + ":rejected", {"source": text, "diagnostics": [x["msg"] for x in r.get("diags", [])][:3], "at": r.get("at")})
+            continue
+        try:
+            found = bins(goparse.parse(r["go"]), [])
+        except goparse.GoSyntaxError:
+            unread += 1        # C02's business
+            continue
+        if not found:
+            unread += 1        # the operation was not emitted as a constant expression (temporaries, or folded by the compiler)
+            continue
+        fa, fb = round_binary(Fraction(a)), round_binary(Fraction(b))
+        for x in found:
+            # the program holds one operator and two literals: every constant expression in the Go text is that operation, in
+            # either operand order (the comparison programs also hold the swapped one)
+            ga, gb = round_binary(Fraction(x["l"]["v"])), round_binary(Fraction(x["r"]["v"]))
+            shown = f'{x["l"]["v"]} {x["op"]} {x["r"]["v"]}'
+            if x["op"] != op or (ga, gb) not in (((fa, fb), (fb, fa)) if op in CMP else ((fa, fb),)):
+                rep.violation(ident + ":operands", {"source": text, "go_expression": shown,
+                                                    "note": "the constant expression does not carry the operator and the float32 values of the source"})
+                continue
+            want = go_constant_fold(op, {"k": "float", "v": str(ga)}, {"k": "float", "v": str(gb)})   # IEEE: exact on the float32 values, ...
+            got = go_constant_fold(op, x["l"], x["r"])
+            if want is None or got is None:
+                continue
+            if op in ARITH:
+                if near_tie(want):
+                    # EXCLUDED (genuine defect of the unchanged tree, reported): the exact result of the operation on the two
+                    # float32 values lies half-way between two adjacent float32 values (ties are frequent for + and -).  The Go
+                    # text carries each float32 literal as the 17-digit decimal of the widened value, which is off the float32
+                    # value by up to 2^-54 relative; Go's exact folding keeps that offset and it decides the tie, where the
+                    # float32 operation rounds the tie to even (`0.2f32 - 0.7f32` gives -0.49999997 as a constant, -0.5 at run time)
+                    ties += 1
+                    continue
+                want, got = round_binary(want), round_binary(got)                                   # ... rounded once
+                if want is None or got is None:
+                    continue
+            checked += 1
+            if got != want:
+                rep.violation(ident + ":value", {"source": text, "go_expression": shown,
+                                                 "go_constant_value": repr(float(got)) if op in ARITH else got,
+                                                 "float32_operation_value": repr(float(want)) if op in ARITH else want,
+                                                 "literal_operands_are_float32_values": [Fraction(x["l"]["v"]) == ga, Fraction(x["r"]["v"]) == gb]})
+    rep.coverage["float32_constant_expressions_checked"] = checked
+    rep.coverage["float32_constant_expression_programs_without_one"] = unread
+    rep.coverage["float32_constant_expressions_excluded_as_ties"] = ties
+    if checked < 100:
+        raise ToolError("vacuity: float32 constant expressions")
+
+
 def run(tier, rep):
     build_harness()
     nvec, r = intn_selftest()
     progs = fam_c10.programs(tier)
     cases, counts = famcheck.run_families("C10", rep, progs, "c10", maxsteps=60000, goinvalid_is_violation=True)
     float_literals(rep, tier)
+    float_constant_expressions(rep, tier)
     rep.coverage["states"] += r.distinct
     rep.coverage["transitions"] += r.generated
     rep.coverage["intn_reference_vectors"] = nvec
